@@ -55,7 +55,7 @@ def run(rep):
     bodies.sort(key=lambda c: bname(c["b"]))
     rep.spaces.append({"space": "bodies: inner x exit x enclosure x place (valid combinations)", "cases": len(bodies), "complete": True})
     rep.spaces.append({"space": "recursion shapes x M", "cases": len(shapes), "complete": True})
-    ns = [1, 30, 200] if quick else [1, 50, 2000]
+    ns = [1, 30, 200] if quick else [1, 50, 1000]
     cases = []
     for i, c in enumerate(bodies):
         cases.append({"id": "b%d" % i, "kind": "body", "b": c["b"], "ns": ns, "m": BODY_M})
